@@ -3,6 +3,7 @@
    [ctx_free q]: every leaf of q that is not inside a predicate is the root
    (QAbsolute) or a constant — what the builder produces for an absolute expression. *)
 From Coq Require Import List.
+From Coq Require Import ZArith.
 From XP Require Import Base F64 Doc Ast Eval Api.
 From XP.Proofs Require Import HashInj Absolute.
 
@@ -49,3 +50,34 @@ Theorem C13_not_not : forall D has_ns hcode rm rn rr i c,
   eval D has_ns hcode rm rn rr (QFn1 FNot (QFn1 FNot i)) c = eval D has_ns hcode rm rn rr (QFn1 FBoolean i) c.
 Proof. exact not_not_boolean. Qed.
 Print Assumptions C13_not_not.
+
+(* ---- relative paths compose with the context (Proofs/Compose.v) ----
+   [addr_query n] is the absolute path /child::node()[i0+1]/child::node()[i1+1]/...
+   that addresses the element / text / comment node n; [indices_exact] holds for
+   all child indices below 2^53 (doubles represent them exactly). *)
+From XP.Spec Require Import Paths.
+From XP.Proofs Require Import PathSem Compose.
+
+Theorem C13_address_selects_the_node : forall D has_ns hcode rm rn rr n,
+  Doc.valid D n = true -> nattr n = None ->
+  (forall i, In i (npath n) -> (Z.of_nat i < 2 ^ 53)%Z) ->
+  qden D has_ns hcode rm rn rr (addr_query n) (fun _ m => m = n).
+Proof. exact addr_selects_node_small. Qed.
+Print Assumptions C13_address_selects_the_node.
+
+(* a predicate-free relative path at n  =  addr(n)/path from anywhere: same sequence *)
+Theorem C13_compose_same_sequence : forall D has_ns hcode rm rn rr n c steps,
+  Doc.valid D n = true -> nattr n = None -> indices_exact (npath n) ->
+  sel D has_ns hcode rm rn rr (chain (addr_query n) steps) c =
+  sel D has_ns hcode rm rn rr (chain QContext steps) n.
+Proof. exact compose_same_sequence. Qed.
+Print Assumptions C13_compose_same_sequence.
+
+(* any query built over the context leaf (arbitrary predicates, unions, filters,
+   function calls): substituting the address for the context leaf and starting
+   anywhere = evaluating at n *)
+Theorem C13_compose_general : forall rm rn rr hcode D has_ns n c q,
+  Doc.valid D n = true -> nattr n = None -> indices_exact (npath n) -> via_dot q ->
+  select rm rn rr hcode D has_ns (subst_base q (addr_query n)) c = select rm rn rr hcode D has_ns q n.
+Proof. exact select_compose. Qed.
+Print Assumptions C13_compose_general.
